@@ -44,6 +44,34 @@ type VerifState struct {
 	Token    bool
 }
 
+// VerifCall identifies one ReceiveFrom call; it travels in the call's context so that the
+// hooks of the call's later critical sections can name it.
+type VerifCall struct {
+	ID    uint64
+	Cid   string
+	Froms []sharing.ID
+}
+
+type verifCallKey struct{}
+
+var verifCallSeq atomic.Uint64
+
+// VerifCallOf returns the call a hook's context belongs to (nil for the reader and Close).
+func VerifCallOf(ctx context.Context) *VerifCall {
+	if ctx == nil {
+		return nil
+	}
+	v, _ := ctx.Value(verifCallKey{}).(*VerifCall)
+	return v
+}
+
+func (*routerCore) verifCall(ctx context.Context, cid string, froms []sharing.ID) context.Context {
+	if VerifTraceHook == nil && VerifGateHook == nil {
+		return ctx
+	}
+	return context.WithValue(ctx, verifCallKey{}, &VerifCall{ID: verifCallSeq.Add(1), Cid: cid, Froms: append([]sharing.ID(nil), froms...)})
+}
+
 var verifSeqs sync.Map // *routerCore -> *atomic.Uint64
 
 func verifSeqOf(c *routerCore) *atomic.Uint64 {
